@@ -2084,7 +2084,7 @@ void SVD(matrix* m, matrix *U, matrix *S, matrix *VT)
 
   /*NewMatrix(&to_sort, (*S)->row, 2);*/
 
-  for(i = 0; i < S->col; i++){
+  for(i = 0; i < S->col && i < S->row; i++){ /* the diagonal has min(row, col) entries */
     if(FLOAT_EQ(eval1->data[i], 0.f, 1e-6) || eval1->data[i] < 0)
       S->data[i][i] = 0.f;
     else{
